@@ -345,8 +345,8 @@ def parse_einsum(fmt, ranks):
 def np_einsum(ctx, fmt, *args, **kw):
     if kw or not isinstance(fmt, str):
         raise Unsupported('einsum form')
-    ctx.used_axioms.add('numpy.einsum(fmt, *ops) (explicit mode): every label has one length over all operands (ValueError otherwise; '
-                        'a repeated label within one operand takes a diagonal, lengths must agree), the output has the lengths of its labels, '
+    ctx.used_axioms.add('numpy.einsum(fmt, *ops) (explicit mode): a label shared by operands broadcasts (equal lengths or 1, else ValueError); '
+                        'a label repeated within one operand takes a diagonal (lengths equal, a leading 0 is overridden); the output has the lengths of its labels, '
                         'labels missing from the output are summed; `...` stands for the leading axes; kind of the operands')
     ops_, rhs = parse_einsum(fmt, [a.ndim for a in args])
     lengths = {}
@@ -372,10 +372,23 @@ def np_einsum(ctx, fmt, *args, **kw):
             if len(labels) != a.ndim:
                 raise PyRaise('ValueError', note='einsum: operand has %d axes, subscripts %r' % (a.ndim, spec))
             dims = a.shape
+        own = {}
         for l, d in zip(labels, dims):
+            if l in own:
+                # a label repeated WITHIN one operand (diagonal): numpy keeps a running length L; a further axis of length d is
+                # accepted if L == 0 (then L := d) or d == L  [numpy's combined-dims rule, cross-checked natively]
+                L = own[l]
+                if L.eq(d):
+                    continue
+                if not ctx.branch(z3.Or(L == 0, L == d)):
+                    raise PyRaise('ValueError', note='einsum: dimensions for collapsing index %s do not match (%s != %s)' % (l, L, d))
+                own[l] = simp(z3.If(L == 0, d, L))
+            else:
+                own[l] = d
+        for l, d in own.items():
             if l in lengths:
-                if not lengths[l].eq(d) and not ctx.branch(lengths[l] == d):
-                    raise PyRaise('ValueError', note='einsum: label %s has lengths %s and %s' % (l, lengths[l], d))
+                # the same label in DIFFERENT operands broadcasts (equal, or one of them 1)
+                lengths[l] = broadcast(ctx, (lengths[l],), (d,))[0]
             else:
                 lengths[l] = d
     out = []
@@ -549,7 +562,13 @@ def np_det(ctx, a):
 
 
 def np_inv(ctx, a):
+    """numpy.linalg.inv"""
     np_det(ctx, a)
+    return NArr(a.shape, zmax(a.kind, FLOAT))
+
+
+def nutils_numeric_inv(ctx, a):
+    ctx.used_axioms.add('nutils numeric.inv(a): never raises LinAlgError (nan entries instead); result has the shape of a, kind float or complex')
     return NArr(a.shape, zmax(a.kind, FLOAT))
 
 
